@@ -57,7 +57,8 @@ type Task struct {
 	finished  bool
 	free      int
 	Steps     int
-	stalled   int // remaining steps this task is held back (injected stall)
+	stalled   int       // remaining steps this task is held back (injected stall)
+	stallTill time.Time // held back until the (fake) clock reaches this instant (injected slow disk / slow client)
 }
 
 type Sched struct {
@@ -72,9 +73,18 @@ type Sched struct {
 	Steps    int
 	Sticky   int // probability (percent) of continuing the task that ran last
 	MaxFree  int // maximum free passes granted per release
-	last     *Task
-	abort    atomic.Bool
-	Switches int
+	// AwaitReader: a task about to take the write side of a reader/writer lock first lets up to this many
+	// steps pass until some other task holds the read side (a schedule in which the writer arrives while a
+	// request is being served - otherwise a needle in the haystack). 0 = off.
+	AwaitReader int
+	// RecursiveRLock: first recursive read lock seen (task and label); RecursiveRLockWriter: a task that took
+	// the write side of that lock during the run ("" if none did).
+	RecursiveRLock string
+	recursiveOn    sync.Locker
+	writeLockedBy  map[sync.Locker]string
+	last           *Task
+	abort          atomic.Bool
+	Switches       int
 	// Between is called at every quiescent point before a task is released
 	// (observer, crash copies). It runs on the scheduler goroutine.
 	Between func(s *Sched)
@@ -110,6 +120,7 @@ func NewSched(r *Run) *Sched {
 	s := &Sched{R: r, parkCh: make(chan *Task, 256), held: map[sync.Locker]*Task{}, Served: map[string]int{}}
 	s.Sticky = 50 + r.Draw(46) // 50..95
 	s.MaxFree = r.OneOf(0, 0, 3, 20, 200)
+	s.AwaitReader = r.OneOf(0, 0, 100, 600)
 	s.MaxSteps = 400000
 	curMu.Lock()
 	cur = s
@@ -254,6 +265,20 @@ func Lock(m sync.Locker, label string) {
 		m.Lock()
 		return
 	}
+	if _, isRW := m.(RWLocker); isRW && s.AwaitReader > 0 {
+		for i := 0; i < s.AwaitReader; i++ {
+			s.heldMu.Lock()
+			n := len(s.rw(m).readers)
+			s.heldMu.Unlock()
+			if n > 0 {
+				s.R.Probe("writer-arrived-while-a-reader-held-the-lock")
+				break
+			}
+			t.blockedOn = nil
+			t.free = 0
+			s.park(t, label+":await-reader")
+		}
+	}
 	for {
 		t.blockedOn = nil
 		if !s.writable(m, t, true) { // (also when t itself holds it: Go mutexes are not reentrant)
@@ -269,6 +294,12 @@ func Lock(m sync.Locker, label string) {
 	s.held[m] = t
 	if st := s.rwStates[m]; st != nil {
 		delete(st.waiting, t)
+	}
+	if _, isRW := m.(RWLocker); isRW {
+		if s.writeLockedBy == nil {
+			s.writeLockedBy = map[sync.Locker]string{}
+		}
+		s.writeLockedBy[m] = t.Name
 	}
 	s.heldMu.Unlock()
 	t.blockedOn = nil
@@ -325,6 +356,15 @@ func RLock(m RWLocker, label string) {
 		m.RLock()
 		return
 	}
+	s.heldMu.Lock()
+	if s.rw(m).readers[t] > 0 && s.RecursiveRLock == "" {
+		// Recursive read locking: sync.RWMutex forbids it, because a writer that arrives between the two
+		// RLock calls blocks the second one for ever. Recorded; the harness reports it when some other task
+		// takes the write side of the same lock in this run (the deadlocking schedule then exists).
+		s.RecursiveRLock = t.Name + " at " + label
+		s.recursiveOn = m
+	}
+	s.heldMu.Unlock()
 	for {
 		s.heldMu.Lock()
 		st := s.rw(m)
@@ -448,6 +488,12 @@ func (s *Sched) runnable() []*Task {
 		if t.stepSleep > 0 || t.stalled > 0 {
 			continue
 		}
+		if !t.stallTill.IsZero() {
+			if time.Now().Before(t.stallTill) {
+				continue
+			}
+			t.stallTill = time.Time{}
+		}
 		if t.blockedOn != nil {
 			if t.rblocked {
 				if !s.readable(t.blockedOn) {
@@ -501,6 +547,20 @@ func (s *Sched) tick(n int) {
 
 // Stall holds task t back for n steps (slow writer / slow client fault).
 func (s *Sched) Stall(t *Task, n int) { t.stalled = n }
+
+// StallFor holds task t back for d of simulated time (the other tasks and the clock go on).
+func (s *Sched) StallFor(t *Task, d time.Duration) { t.stallTill = time.Now().Add(d) }
+
+// timeStalled: the earliest instant at which a task held back by StallFor may go on (zero if none is held).
+func (s *Sched) timeStalled() time.Time {
+	var min time.Time
+	for _, t := range s.tasks {
+		if t.parked && t.wake != nil && !t.stallTill.IsZero() && (min.IsZero() || t.stallTill.Before(min)) {
+			min = t.stallTill
+		}
+	}
+	return min
+}
 
 func (s *Sched) release(t *Task) {
 	t.parked = false
@@ -575,6 +635,15 @@ func (s *Sched) Run() {
 			if nSleep > 0 {
 				wait = 50 * time.Millisecond // step-clock sleepers exist: do not let the fake clock run away
 			}
+			held := s.timeStalled()
+			if !held.IsZero() {
+				if d := time.Until(held); d < wait {
+					wait = d
+				}
+				if wait < time.Millisecond {
+					wait = time.Millisecond
+				}
+			}
 			select {
 			case t := <-s.parkCh:
 				s.note(t)
@@ -583,11 +652,20 @@ func (s *Sched) Run() {
 					s.tick(minSleep)
 					continue
 				}
+				if !held.IsZero() {
+					continue // a task held back for a while may go on now
+				}
 				s.Deadlock = "stall: no task became runnable within 24 h of simulated time; " + s.Where()
 				s.abortAll()
 				return
 			}
 		default:
+			if held := s.timeStalled(); !held.IsZero() {
+				if d := time.Until(held); d > 0 {
+					time.Sleep(d)
+				}
+				continue
+			}
 			s.Deadlock = "deadlock: every task is blocked on a lock; " + s.Where()
 			s.abortAll()
 			return
@@ -672,3 +750,14 @@ func (s *Sched) Fail(msg string) {
 
 // Aborted reports whether the scheduler was told to stop.
 func (s *Sched) Aborted() bool { return s.abort.Load() }
+
+// RecursiveRLockWriter returns the name of a task that write-locked the mutex on which a recursive read
+// lock was seen ("" if there was no recursion or no writer).
+func (s *Sched) RecursiveRLockWriter() string {
+	s.heldMu.Lock()
+	defer s.heldMu.Unlock()
+	if s.RecursiveRLock == "" || s.recursiveOn == nil {
+		return ""
+	}
+	return s.writeLockedBy[s.recursiveOn]
+}
